@@ -50,10 +50,16 @@ def rewrite(text):
     return text
 
 
+def put(path, text):
+    """write only when the content changes (keeps cargo's fingerprints: no rebuild for an unchanged tree)"""
+    if os.path.exists(path) and open(path).read() == text:
+        return
+    open(path, "w").write(text)
+
+
 def main():
-    if os.path.isdir(DST):
-        shutil.rmtree(DST)
-    os.makedirs(os.path.join(DST, "src"))
+    os.makedirs(os.path.join(DST, "src"), exist_ok=True)
+    keep = set()
     for f in sorted(os.listdir(os.path.join(SRC, "src"))):
         p = os.path.join(SRC, "src", f)
         if not os.path.isfile(p):
@@ -61,16 +67,20 @@ def main():
         t = open(p).read()
         if f.endswith(".rs") and f not in ("verif.rs", "test.rs"):
             t = rewrite(t)
-        open(os.path.join(DST, "src", f), "w").write(t)
+        put(os.path.join(DST, "src", f), t)
+        keep.add(f)
+    for f in os.listdir(os.path.join(DST, "src")):
+        if f not in keep:
+            os.remove(os.path.join(DST, "src", f))
     for f in ("README.md",):
         if os.path.exists(os.path.join(SRC, f)):
-            shutil.copy(os.path.join(SRC, f), os.path.join(DST, f))
+            put(os.path.join(DST, f), open(os.path.join(SRC, f)).read())
     c = open(os.path.join(SRC, "Cargo.toml")).read()
     # no dev-dependencies (relative paths), own version so that the two `varlink` packages never collide in a lock file
     c = re.sub(r"\n\[dev-dependencies\][^\[]*", "\n", c)
     c = re.sub(r'(?m)^version\s*=\s*"([^"]+)"', lambda m: 'version = "%s-sched"' % m.group(1), c, count=1)
     c = c.replace("[dependencies]\n", '[dependencies]\nvh = { path = "/verif/harness/vh" }\n', 1)
-    open(os.path.join(DST, "Cargo.toml"), "w").write(c)
+    put(os.path.join(DST, "Cargo.toml"), c)
     print(DST)
 
 
